@@ -91,7 +91,7 @@ def gen_case(rng, tier, index):
     if mode in ("errno", "mixed"):
         a = rng.choice(actors)
         faults.append({"actor": a["name"], "at": rng.randrange(1, 40 * case["rounds"]), "kind": "errno",
-                       "errno": rng.choice([28, 5, 13, 4])})
+                       "errno": rng.choice([28, 5, 13, 122])})      # ENOSPC, EIO, EACCES, EDQUOT (never EINTR: PEP 475)
     if mode == "enum":
         cand = [a for a in actors if a["kind"] in ("upload", "mirror")]
         case["enumerate_kill"] = rng.choice(cand)["name"]
